@@ -18,13 +18,24 @@ type vCodec struct {
 	unV     interface{}
 	unErr   error
 	unknown []byte // unknown fields the decoded message carries
+	overlap func() // runs in the middle of Marshal
 }
 
 type vErr struct{}
 
 func (vErr) Error() string { return "inner codec failed" }
 
-func (c *vCodec) Marshal(v interface{}) ([]byte, error) { c.gotV = v; c.calls++; return c.out, c.err }
+func (c *vCodec) Marshal(v interface{}) ([]byte, error) {
+	c.gotV = v
+	c.calls++
+	if f := c.overlap; f != nil {
+		// another complete Marshal call of the codec happens while this one is in progress (the
+		// schedule in which a second goroutine's call overlaps exactly here)
+		c.overlap = nil
+		f()
+	}
+	return c.out, c.err
+}
 func (c *vCodec) Unmarshal(data []byte, v interface{}) error {
 	c.unData, c.unV = data, v
 	if c.unErr == nil {
@@ -77,6 +88,15 @@ func VerifH_ck() {
 		inner.err = vErr{}
 	}
 	c := &myCodec{protoCodec: inner}
+	if verifBool("overlap") {
+		// calls of the codec are independent: gRPC marshals on many goroutines, so another Marshal
+		// (another codec value, another message) may run to completion while this one is in progress
+		inner.overlap = func() {
+			other := &vCodec{out: []byte{0x08, 0x01}}
+			o, e := (&myCodec{protoCodec: other}).Marshal(&vMsg{Name: "o"})
+			verifAssert(e == nil && len(o) == 8 && other.calls == 1, "C19: the overlapping Marshal call failed")
+		}
+	}
 	msg := &vMsg{Name: "m"} // a message (of the legacy generated shape)
 	out, err := c.Marshal(msg)
 	verifReach("after marshal")
